@@ -221,10 +221,14 @@ def tag_candidates(tag, longer=None, other=None):
 
 # ---------------------------------------------------------------------------
 def selftest():
-    """Validates the glue in this file against independently tested functions; raises on mismatch."""
     for m in REF_MODULES:
         if m.selftest() is False:
             raise AssertionError("selftest of %s failed" % m.__name__)
+    return selftest_glue()
+
+
+def selftest_glue():
+    """Validates the glue in this file against independently tested functions; raises on mismatch."""
     # HMAC: RFC 2202 / RFC 4231 test case 1 and the stdlib for every hashlib-backed hash
     assert hmac_ref("MD5", b"\x0b" * 16, b"Hi There").hex() == "9294727a3638bb1c13f48ef8158bfc9d"
     assert hmac_ref("SHA256", b"\x0b" * 20, b"Hi There").hex() == \
